@@ -297,7 +297,60 @@ pub fn random_case(r: &mut Rng) -> Case {
   Case { tasks, threads: r.chance(1, 3), policy: if r.chance(1, 2) { Policy::Fifo } else { Policy::Any }, late: r.chance(1, 2), seed: r.next() }
 }
 
+/// A third-party scheduler written against the public API: it runs a task inline when it is
+/// scheduled (polls it to completion on the spot; timers are virtual and not used here) and hands
+/// back `TaskHandle::value_handle(output)`. A subscribing task's handle obtained that way must
+/// still cancel the subscription it made, report it open while it is, and stay cancelled.
+#[derive(Clone)]
+struct InlineScheduler;
+impl<T> Scheduler<T> for InlineScheduler
+where
+  T: std::future::Future + 'static,
+{
+  fn schedule(&self, task: T, _delay: Option<Duration>) -> rxrust::scheduler::TaskHandle<T::Output> {
+    let mut task = Box::pin(task);
+    let w = futures::task::noop_waker();
+    let mut cx = std::task::Context::from_waker(&w);
+    match task.as_mut().poll(&mut cx) {
+      std::task::Poll::Ready(out) => rxrust::scheduler::TaskHandle::value_handle(out),
+      std::task::Poll::Pending => panic!("harness: the inline scheduler is only given tasks that finish at once"),
+    }
+  }
+}
+
+fn inline_scheduler_battery(rep: &mut Report) {
+  for via_guard in [false, true] {
+    rep.evaluations += 1;
+    rep.count("subscribing_tasks_on_a_third_party_inline_scheduler", 1);
+    let id = format!("inline:{}", via_guard);
+    let log = Log::new();
+    let mut hot = Subject::<'static, V, E>::default();
+    let h = hot.clone().subscribe_on(InlineScheduler).actual_subscribe(Probe::new(1, &log));
+    hot.next(V::I(1));
+    let open_reported_closed = h.is_closed();
+    if via_guard {
+      drop(h.unsubscribe_when_dropped());
+    } else {
+      h.unsubscribe();
+    }
+    hot.next(V::I(2));
+    hot.next(V::I(3));
+    let got = log.notes(1);
+    rep.events += got.len() as u64 + 1;
+    if open_reported_closed {
+      rep.violation("closed_but_still_acting", "subscribing_task[inline scheduler]", &id, json!({"why": "is_closed() == true while the subscription made by the task was delivering"}));
+    } else if got != vec![N::Next(V::I(1))] {
+      rep.violation("delivery_after_cancel", "subscribing_task[inline scheduler]", &id, json!({"why": "unsubscribe() on the handle of a subscribing task did not cancel the subscription the task had made", "observed": jn(&got), "expected": jn(&[N::Next(V::I(1))])}));
+    } else {
+      rep.nontrivial.insert(hash64(&id));
+    }
+  }
+}
+
 pub fn run(cfg: &Cfg, rep: &mut Report) {
+  if cfg.shard == 0 && cfg.only_case.as_deref().map_or(true, |c| c.starts_with("inline:")) {
+    inline_scheduler_battery(rep);
+  }
   let total = cfg.n(500_000, 20_000_000);
   let mut rng = Rng::new(cfg.seed ^ 0xC19);
   for i in 0..total {
